@@ -268,7 +268,7 @@ PROPS = {
         level="proof",
         needs_bita=True,
         required_theorems=["fetch_exact", "scan_starts_at_zero_fact"],
-        suites=dict(quick=[("py", "c02_seeds")], thorough=[("py", "c02_seeds")]),
+        suites=dict(quick=[("py", "c02_seeds"), ("l1", "c03")], thorough=[("py", "c02_seeds"), ("l1", "c03")]),
         rule="as C02; compared: the exact list of fetched (offset,size) ranges beyond the header; oracles: no range twice, nothing fetched when "
              "a seed is the source or the output already holds it (regular file and block device)",
         trusted_base=LEAN_TB + ["strace"],
